@@ -56,13 +56,13 @@ package rlp
 //@ spec fn rlpHeadsize(size uint64) uint64 = ite(size < 56, uint64(1), 1 + rlpNbytes(size))
 
 //@ func intsize
-//@   property C08
+//@   property C08 C02
 //@   loop 0: invariant 1 <= size && size <= 8 && i == old(i) >> uint64(8*(size-1)) && (size > 1 ==> i != 0)
 //@   ensures [minimal] uint64(size) == rlpNbytes(i)
 //@   modifies nothing
 
 //@ func putint
-//@   property C08
+//@   property C08 C02
 //@   requires uint64(len(b)) >= rlpNbytes(i)
 //@   ensures [size]  uint64(size) == rlpNbytes(i)
 //@   ensures [value] rlpBe(b, uint64(size)) == i
@@ -70,12 +70,12 @@ package rlp
 //@   modifies elems(b)
 
 //@ func headsize
-//@   property C08
+//@   property C08 C02
 //@   ensures [size] uint64(result) == rlpHeadsize(size)
 //@   modifies nothing
 
 //@ func puthead
-//@   property C08
+//@   property C08 C02
 //@   requires len(buf) >= 9
 //@   ensures [size]   uint64(result) == rlpHeadsize(size)
 //@   ensures [string] smalltag == 128 && largetag == 183 ==> rlpHeadOK(buf, String, uint64(result), size)
@@ -87,7 +87,7 @@ package rlp
 //@ spec fn rlpStrEncLen(n uint64, single bool) uint64 = ite(single, uint64(1), rlpHeadsize(n) + n)
 
 //@ func encbuf.encodeStringHeader
-//@   property C08
+//@   property C08 C02
 //@   requires w != nil && size >= 0 && len(w.sizebuf) >= 9 && ref(w.sizebuf) != ref(w.str)
 //@   ensures [len]    uint64(len(w.str)) == old(uint64(len(w.str))) + rlpHeadsize(uint64(size))
 //@   ensures [head] rlpHeadOK(w.str[old(len(w.str)):], String, rlpHeadsize(uint64(size)), uint64(size))
@@ -98,7 +98,7 @@ package rlp
 //@   modifies w.str, elems(w.str), elems(w.sizebuf)
 
 //@ func encbuf.encodeString
-//@   property C08
+//@   property C08 C02
 //@   requires w != nil && len(w.sizebuf) >= 9 && ref(w.sizebuf) != ref(w.str) && ref(b) != ref(w.str) && ref(b) != ref(w.sizebuf)
 //@   ensures [len]    uint64(len(w.str)) == old(uint64(len(w.str))) + rlpStrEncLen(uint64(len(b)), len(b) == 1 && b[0] <= 127)
 //@   ensures [single] len(b) == 1 && b[0] <= 127 ==> w.str[old(len(w.str))] == b[0]
@@ -111,7 +111,7 @@ package rlp
 //@   modifies w.str, elems(w.str), elems(w.sizebuf)
 
 //@ func encbuf.size
-//@   property C08
+//@   property C08 C02
 //@   requires w != nil
 //@   ensures result == len(w.str) + w.lhsize
 //@   modifies nothing
